@@ -134,7 +134,7 @@ def save_case(pid, case):
     return path
 
 
-def replay_file(path, timeout=120):
+def replay_file(path, timeout=300):
     """run the case against the unmodified code in a fresh interpreter without shims.
     returns dict(reproduced=bool|None, detail=str)"""
     env = dict(os.environ)
@@ -228,6 +228,8 @@ def main(pid, tier):
                 known_hits.setdefault(key, (c, p))
             else:
                 violations.append((c, p, r))
+        elif r.get('reproduced') is False and c.get('inconclusive_if_not_reproduced'):
+            inconclusive.append(f"{c.get('why', '')[:200]} -- not confirmed by the concrete replay ({str(r.get('detail'))[:80]})")
         elif r.get('reproduced') is False:
             nonrepro.append((c, p, r))
         else:
